@@ -821,7 +821,7 @@ func (s *Netceptor) monitorConnectionAging() {
 				connInfo.lastReceivedLock.RUnlock()
 			}
 			s.connLock.RUnlock()
-			verifhook.Emit(s.vn, "idle_scan_end", "n", len(timedOut))
+			verifhook.Emit(s.vn, "idle_scan_end", "cut", len(timedOut))
 			for conn := range timedOut {
 				s.Logger.Warning("Timing out connection %s, idle for the past %s\n", conn, s.maxConnectionIdleTime)
 				verifhook.Emit(s.vn, "idle_timeout", "peer", conn)
